@@ -196,6 +196,13 @@ def run(ctx):
     for k in ("sens_negated_merge", "sens_value_only_dedup", "sens_outbound_by_name", "decided_by_merged_rule"):
         ctx.cov[k] = agg[k]
     ctx.cov["flagged_programs"] = len(agg["flagged_programs"])
+    # generator-quality floors: the random streams must keep producing inputs on which the known wrong
+    # variants of the optimizers would decide differently (measured quick seed 1: 267 / 27 / 87 / 1747)
+    floors = {"sens_negated_merge": 50, "sens_value_only_dedup": 5, "sens_outbound_by_name": 15, "decided_by_merged_rule": 300}
+    if not ctx.violations:
+        for k, v in floors.items():
+            if agg[k] < v:
+                ctx.proof_failures.append(f"generator sensitivity {k}={agg[k]} fell below its floor {v}")
     if agg["benign_ast_drift"]:
         ctx.say(f"NOTE: {agg['benign_ast_drift']} normalised programs differ from the model's AST but have the same normal form (same meaning by theorem); not a violation")
     ctx.assumptions = [
